@@ -8,6 +8,9 @@ def check(ctx):
     check_record(ctx)
     check_guards(ctx)
     check_dtypes(ctx, rule="R6-float64-contiguous")
+    # finite error bars for constant / strictly periodic records: the scatter must not go negative by cancellation (sqrt -> NaN)
+    from .c11 import check_never_negative
+    check_never_negative(ctx, rule="R7-scatter-never-negative")
     ctx.trust("E7 aliasing rows (asarray/ascontiguousarray/.T/basic slices alias; arithmetic, fancy indexing, nan_to_num(copy=True) are fresh)",
               "np.nan_to_num keyword defaults (posinf/neginf default to +-1.8e308, not 0)")
     ctx.assume("exact arithmetic: dtype/stride independence of the numbers and float underflow are not decided")
